@@ -45,6 +45,7 @@ thread_local! {
     static FACTORY: RefCell<Option<Factory>> = const { RefCell::new(None) };
     static CONTROLLER: RefCell<Option<Arc<dyn Controller>>> = const { RefCell::new(None) };
     static RESOLVER: RefCell<Vec<(String, Vec<SocketAddr>)>> = const { RefCell::new(Vec::new()) };
+    static RESOLVED: RefCell<Vec<(String, u16)>> = const { RefCell::new(Vec::new()) };
 }
 
 /// Installs (or removes) the transport factory of the current thread, returns the previous one.
@@ -153,7 +154,13 @@ pub fn has_resolution(domain: &str) -> bool {
     RESOLVER.with(|r| r.borrow().iter().any(|(d, _)| d == domain))
 }
 
+/// The (domain, port) pairs the client asked the resolver table for on this thread, oldest first.
+pub fn take_resolved() -> Vec<(String, u16)> {
+    RESOLVED.with(|r| std::mem::take(&mut *r.borrow_mut()))
+}
+
 pub(crate) fn resolve(domain: &str, port: u16) -> Vec<SocketAddr> {
+    RESOLVED.with(|r| r.borrow_mut().push((domain.to_owned(), port)));
     RESOLVER.with(|r| {
         let r = r.borrow();
         let (_, addrs) = r.iter().find(|(d, _)| d == domain).expect("no resolution installed");
